@@ -123,12 +123,18 @@ type violation struct {
 // planSession runs nPlans random plans on one world and returns the first
 // violation (the chains are out of step afterwards).
 func planSession(t *testing.T, run *ev.Run, si, nPlans int) *violation {
-	w, err := newWorld(t, si)
+	// one session in six runs on a chain with only the older hardforks enabled
+	stage := ""
+	if si%6 == 5 {
+		stage = []string{"none", "Aspidochelone", "Cockatrice", "Echidna"}[(si/6)%4]
+	}
+	w, err := newWorld(t, si, stage)
 	defer w.close()
 	if err != nil {
 		return setupFailure(run, "plans", si, err)
 	}
 	w.A.Cfg.Observe = false
+	run.Obs("plan_sessions_on_"+w.proto, 1)
 	r := rng.New(uint64(si)*13 + 7000)
 	m := newModel(nSlots)
 	m.funded = nBase
